@@ -88,8 +88,15 @@ pub struct BaseHeaders {
 
 impl BaseHeaders {
     fn extract_from(headers: &Headers) -> Result<Self, HeaderError> {
+        let via: Vec<Via> = headers.get_named()?;
+
+        // A Via header without a single valid value decodes to an empty list
+        if via.is_empty() {
+            return Err(HeaderError::malformed_adhoc(Name::VIA, "no valid value"));
+        }
+
         Ok(BaseHeaders {
-            via: headers.get_named()?,
+            via,
             from: headers.get(Name::FROM)?,
             to: headers.get(Name::TO)?,
             call_id: headers.get_named()?,
